@@ -164,7 +164,7 @@ pub fn ser_atom(b: &[u8], out: &mut Vec<u8>) {
 
 /// reference classic decoder. Returns (tree, bytes consumed) or None.
 /// Written from the format description: 0xff = cons, 0x80 = nil, <0x80 one byte,
-/// otherwise a length prefix of 1..5 bytes (6-byte and longer prefixes rejected).
+/// otherwise a length prefix of 1..6 bytes whose value must be < 2^34.
 pub fn deser(buf: &[u8]) -> Option<(T, usize)> {
     enum Op {
         Parse,
@@ -215,8 +215,8 @@ pub fn deser_atom_after_first(buf: &[u8], mut pos: usize, b: u8) -> Option<(T, u
         mask >>= 1;
     }
     // extra = number of leading 1 bits; size bytes = extra (including first)
-    if extra > 5 {
-        return None; // 0xfc.. would be 6 bytes: reserved / too large
+    if extra > 6 {
+        return None; // 0xfe / 0xff: reserved (back-reference / cons markers)
     }
     let mut n: u64 = first as u64;
     for _ in 1..extra {
@@ -242,7 +242,7 @@ pub fn deser_atom_after_first(buf: &[u8], mut pos: usize, b: u8) -> Option<(T, u
 #[derive(Debug, Clone, PartialEq, Eq, Hash)]
 pub enum Shape {
     L,
-    N(Rc<Shape>, Rc<Shape>),
+    N(Box<Shape>, Box<Shape>),
 }
 
 pub fn shapes(n: usize) -> Vec<Shape> {
@@ -259,7 +259,7 @@ pub fn shapes(n: usize) -> Vec<Shape> {
                 let rs = go(n - l, memo);
                 for a in &ls {
                     for b in &rs {
-                        out.push(Shape::N(Rc::new(a.clone()), Rc::new(b.clone())));
+                        out.push(Shape::N(Box::new(a.clone()), Box::new(b.clone())));
                     }
                 }
             }
@@ -292,14 +292,14 @@ pub fn count_trees_exact(n: usize, k: usize) -> u64 {
 
 /// the i-th tree (0-based) among those with exactly n leaves over alphabet `alpha`.
 /// Order: shape-major, then leaves as base-|alpha| digits (leftmost leaf most significant).
-pub fn nth_tree(shapes_n: &[Shape], n: usize, alpha: &[T], i: u64) -> T {
+pub fn nth_tree(shapes_n: &[Shape], n: usize, alpha: &[Vec<u8>], i: u64) -> T {
     let k = alpha.len() as u64;
     let per = k.pow(n as u32);
     let s = &shapes_n[(i / per) as usize];
     let mut d = i % per;
-    let mut leaves = vec![alpha[0].clone(); n];
+    let mut leaves = vec![nil(); n];
     for j in (0..n).rev() {
-        leaves[j] = alpha[(d % k) as usize].clone();
+        leaves[j] = atom(&alpha[(d % k) as usize]);
         d /= k;
     }
     let mut idx = 0;
@@ -308,14 +308,15 @@ pub fn nth_tree(shapes_n: &[Shape], n: usize, alpha: &[T], i: u64) -> T {
 
 /// An indexable description of TREES(kmax, alpha): all trees with 1..=kmax leaves.
 pub struct TreeSpace {
-    pub alpha: Vec<T>,
+    pub alpha: Vec<Vec<u8>>,
     pub shapes: Vec<Vec<Shape>>, // index = leaves
     pub offsets: Vec<u64>,       // cumulative counts, offsets[n] = #trees with < n leaves... (n>=1)
     pub total: u64,
 }
 
 impl TreeSpace {
-    pub fn new(kmax: usize, alpha: &[T]) -> Self {
+    pub fn new(kmax: usize, alpha_t: &[T]) -> Self {
+        let alpha: Vec<Vec<u8>> = alpha_t.iter().map(|t| t.bytes().expect("leaf alphabet must be atoms").to_vec()).collect();
         let mut shp = vec![vec![]];
         let mut offsets = vec![0, 0];
         let mut total = 0u64;
@@ -326,7 +327,7 @@ impl TreeSpace {
             offsets.push(total);
         }
         TreeSpace {
-            alpha: alpha.to_vec(),
+            alpha,
             shapes: shp,
             offsets,
             total,
